@@ -65,13 +65,14 @@ func (a *archetypes) get(ids ...ComponentId) *archetype {
 }
 
 func (a *archetypes) unbind(entity Entity) {
-	if _, exists := a.entities[entity]; exists {
+	if art, exists := a.entities[entity]; exists {
 		delete(a.entities, entity)
+		art.unbind(entity)
 	}
 }
 
 func (a *archetypes) unBindMany(entities []Entity) {
 	for _, entity := range entities {
-		delete(a.entities, entity)
+		a.unbind(entity)
 	}
 }
